@@ -42,10 +42,16 @@ func (o c12Obs) String() string {
 }
 
 // observeAt parses content (the file under test f with reader r at base) and renders everything relative to the file start.
-func c12Observe(p parsley.Parser, fs *parsley.FileSet, f *text.File, base int, direct bool, n int) (out []c12Obs, panicMsg string) {
+func c12Observe(p parsley.Parser, fs *parsley.FileSet, f *text.File, rd *text.Reader, base int, direct bool, n int) (out []c12Obs, panicMsg string) {
+	newReader := func() *text.Reader {
+		if rd != nil {
+			return rd // a reader that was created before the file was added to the set
+		}
+		return text.NewReader(f)
+	}
 	panicMsg = guard(func() {
 		if direct {
-			r := text.NewReader(f)
+			r := newReader()
 			ctx := parsley.NewContext(fs, r)
 			for o := 0; o <= n; o++ {
 				node, _, err := p.Parse(ctx, data.EmptyIntMap, parsley.Pos(base+o))
@@ -60,13 +66,13 @@ func c12Observe(p parsley.Parser, fs *parsley.FileSet, f *text.File, base int, d
 			}
 			return
 		}
-		ctx := parsley.NewContext(fs, text.NewReader(f))
+		ctx := parsley.NewContext(fs, newReader())
 		node, err := parsley.Parse(ctx, p)
 		ob := c12Obs{tree: impl.Render(node, base), calls: ctx.CallCount()}
 		if err != nil {
 			ob.err = err.Error()
 		}
-		ctx2 := parsley.NewContext(fs, text.NewReader(f))
+		ctx2 := parsley.NewContext(fs, newReader())
 		v, err2 := parsley.Evaluate(ctx2, p)
 		ob.value = fmt.Sprintf("%#v", v)
 		if err2 != nil {
@@ -122,8 +128,11 @@ func c12One(res *explore.Result, wl *c12Workload, p parsley.Parser, s string, ve
 		return true
 	}
 	for pi, pl := range placements {
-		fs, f, _, base := place(pl, "f", raw)
-		got, pm := c12Observe(p, fs, f, base, wl.direct, n)
+		fs, f, r0, base := place(pl, "f", raw)
+		if !pl.readerFirst {
+			r0 = nil
+		}
+		got, pm := c12Observe(p, fs, f, r0, base, wl.direct, n)
 		if !compare(pl.name, got, pm) {
 			return
 		}
@@ -138,7 +147,7 @@ func c12One(res *explore.Result, wl *c12Workload, p parsley.Parser, s string, ve
 		files := []*text.File{f0, f1}
 		bases := []int{1, 1 + n + 1}
 		for _, k := range order {
-			got, pm := c12Observe(p, fs, files[k], bases[k], wl.direct, n)
+			got, pm := c12Observe(p, fs, files[k], nil, bases[k], wl.direct, n)
 			if !compare(fmt.Sprintf("file #%d of a two-file set, parsed in order %v", k+1, order), got, pm) {
 				return
 			}
@@ -302,7 +311,7 @@ func init() {
 	explore.Register(&explore.Check{
 		ID:    "C12",
 		Level: "model_checking",
-		Rule: "differential over placements: each input of the workload corpora (arithmetic strings <= 4/5 symbols + long families, JSON token strings <= 3/4 tokens + families, every literal parser on every string <= 3/4 symbols at every offset, every terminating grammar of <= 4 nodes + left-recursive seeds on every input <= 3/4, trimmed token sequences) is parsed with its file alone, after preceding files giving base offsets 2, 5, 3, 10 and 1000, and as first and second file of a two-file set whose other file is parsed before/after it; " +
+		Rule: "differential over placements: each input of the workload corpora (arithmetic strings <= 4/5 symbols + long families, JSON token strings <= 3/4 tokens + families, every literal parser on every string <= 3/4 symbols at every offset, every terminating grammar of <= 4 nodes + left-recursive seeds on every input <= 3/4, trimmed token sequences) is parsed with its file alone, after preceding files giving base offsets 2, 5, 3, 10 and 1000 (once more with the reader created before the file was added to the set), and as first and second file of a two-file set whose other file is parsed before/after it; " +
 			"rendered trees (positions relative to the file start), values, error texts (which carry line:column) must be identical (a difference in CallCount alone is recorded, not judged); state = one (workload, input); transition = one placement; non-trivial = an input that yields an error or a non-terminal tree",
 		Assume: []string{"the file alone (base offset 1) is the reference; equality of rendered trees after subtracting the base offset"},
 		Run:    c12Run,
